@@ -19,7 +19,7 @@ import (
 	"verif/scen/lib"
 )
 
-var faults = []string{"server-finish", "server-fail", "abrupt-close", "half-close", "garbage", "non-envelope", "oversized"}
+var faults = []string{"server-finish", "server-fail", "abrupt-close", "reset", "half-close", "garbage", "non-envelope", "oversized"}
 
 type sendRec struct {
 	id       string
@@ -29,22 +29,23 @@ type sendRec struct {
 }
 
 type st struct {
-	fault      string
-	dials      int
-	estIDs     []string
-	handled    []string
-	sends      []*sendRec
-	tapped     map[string]int // message id -> connection index on whose wire it appeared
-	closeErr   error
-	closeRet   bool
-	snap       bool
-	concurrent bool
-	secondDown bool
-	outage     bool
-	failDials  int
+	fault       string
+	dials       int
+	estIDs      []string
+	handled     []string
+	sends       []*sendRec
+	tapped      map[string]int // message id -> connection index on whose wire it appeared
+	closeErr    error
+	closeRet    bool
+	snap        bool
+	concurrent  bool
+	secondDown  bool
+	outage      bool
+	noTap       bool
+	outageUntil time.Duration
 }
 
-func body(faultSet []string) func(x *harness.X) {
+func body(faultSet []string, useTLS bool) func(x *harness.X) {
 	return func(x *harness.X) {
 		lib.Reset()
 		s := &st{tapped: map[string]int{}}
@@ -53,12 +54,20 @@ func body(faultSet []string) func(x *harness.X) {
 		s.concurrent = rt.Choose(2) == 1
 		s.outage = rt.Choose(2) == 1 // the server is unreachable for a while after the fault
 		// server
-		pl := lib.NewPipeListener(nil, 64<<10, 4)
+		var srvTCP *lime.TCPConfig
+		if useTLS {
+			srvTCP = &lime.TCPConfig{TLSConfig: lib.TLSServerConfig()}
+			s.noTap = true // the wire carries TLS records: message ids are not visible to the tap
+		}
+		pl := lib.NewPipeListener(srvTCP, 64<<10, 4)
 		var chans []*lime.ServerChannel
 		cfg := lime.NewServerConfig()
 		cfg.Node = lib.ServerNode
 		cfg.SchemeOpts = []lime.AuthenticationScheme{lime.AuthenticationSchemeGuest}
 		cfg.EncryptOpts = []lime.SessionEncryption{lime.SessionEncryptionNone}
+		if useTLS {
+			cfg.EncryptOpts = []lime.SessionEncryption{lime.SessionEncryptionTLS}
+		}
 		cfg.Backlog, cfg.ChannelBufferSize = 4, 1
 		cfg.Authenticate, cfg.Register = lib.GuestOK, lib.RegisterSame
 		cfg.Established = func(id string, c *lime.ServerChannel) {
@@ -84,15 +93,18 @@ func body(faultSet []string) func(x *harness.X) {
 		ccfg.Node = lime.Node{Identity: lime.Identity{Name: "alice", Domain: "cli.test"}, Instance: "i"}
 		ccfg.ChannelBufferSize = 1
 		ccfg.CompSelector, ccfg.EncryptSelector, ccfg.Authenticator = lime.NoneCompressionSelector, lime.NoneEncryptionSelector, lime.GuestAuthenticator
+		if useTLS {
+			ccfg.EncryptSelector = lime.TLSEncryptionSelector
+		}
 		ccfg.NewTransport = func(ctx context.Context) (lime.Transport, error) {
-			if s.failDials > 0 {
-				s.failDials--
+			if s.outage && s.outageUntil > 0 && rt.Elapsed() < s.outageUntil {
 				x.Obs("client dial refused")
 				return nil, errors.New("connection refused")
 			}
 			n := s.dials
 			s.dials++
 			conn := pl.Dial()
+			conn.ResetAfterPeerClose = useTLS // writing to a vanished peer is a reset (the close_notify of the TLS layer fails)
 			conn.Tap = func(b []byte) {
 				// which message ids appear on this connection's wire
 				str := string(b)
@@ -103,7 +115,11 @@ func body(faultSet []string) func(x *harness.X) {
 				}
 			}
 			x.Obs("client dials (%d)", s.dials)
-			return lime.NewTCPTransportFromConn(conn, &lime.TCPConfig{ReadLimit: 256}, false), nil
+			ctcp := &lime.TCPConfig{ReadLimit: 256}
+			if useTLS {
+				ctcp.TLSConfig = lib.TLSClientConfig()
+			}
+			return lime.NewTCPTransportFromConn(conn, ctcp, false), nil
 		}
 		client := lime.NewClient(ccfg, cmux)
 		ctx, cancel := context.WithTimeout(context.Background(), 100*time.Second)
@@ -135,10 +151,17 @@ func body(faultSet []string) func(x *harness.X) {
 				_ = sc.FailSession(fctx, &lime.Reason{Code: 1, Description: "maintenance"})
 			case "abrupt-close":
 				_ = sconn.Close()
+			case "reset":
+				_ = sconn.Reset()
 			case "half-close":
 				_ = sconn.CloseWrite()
 			case "garbage":
-				_, _ = sconn.Write([]byte("}{\n"))
+				if useTLS {
+					// a complete, bogus application-data record: fails authentication at once
+					_, _ = sconn.Write([]byte{0x17, 3, 3, 0, 5, 'h', 'e', 'l', 'l', 'o'})
+				} else {
+					_, _ = sconn.Write([]byte("}{\n"))
+				}
 			case "non-envelope":
 				_, _ = sconn.Write([]byte(`{"foo":1}` + "\n"))
 			case "oversized":
@@ -146,7 +169,7 @@ func body(faultSet []string) func(x *harness.X) {
 			}
 		}
 		if s.outage {
-			s.failDials = 3
+			s.outageUntil = rt.Elapsed() + 2*time.Second // the server is unreachable for 2s from now
 		}
 		if s.concurrent {
 			done := make(chan struct{})
@@ -242,7 +265,7 @@ func final(x *harness.X, res *rt.Result) {
 	}
 	// a send reports success only if the envelope was written to an established session
 	for _, r := range s.sends {
-		if r.returned && r.err == nil {
+		if r.returned && r.err == nil && !s.noTap {
 			if _, ok := s.tapped[r.id]; !ok {
 				x.Failf("send-success-not-written:"+s.fault, "SendMessage(%s) returned nil but the message never appeared on any connection %s", r.id, hist)
 			}
@@ -277,15 +300,16 @@ func contains(l []string, s string) bool {
 func main() {
 	opt := rt.Options{NoExplore: true, Horizon: 400 * time.Second, MaxSteps: 60000, SpinLimit: 8000, BoundAll: true, NoTimerDeviation: true}
 	mk := func(name string, fs []string, q, t int) harness.Scenario {
-		return harness.Scenario{Name: name, Opt: opt, Quick: q, Thorough: t, Prune: false, Body: body(fs), Final: final}
+		return harness.Scenario{Name: name, Opt: opt, Quick: q, Thorough: t, Prune: false, Body: body(fs, false), Final: final}
 	}
 	harness.Main(harness.Check{
 		Property: "C19",
 		Level:    "model_checking",
-		Rule:     "fault kind {server finish, server fail, abrupt close, half-close, undecodable bytes, non-envelope JSON, envelope above twice the read limit} x moment {idle, concurrent with an application send} x {server reachable at once, three refused dials during which an application send with a 300ms deadline times out} as data choices, the injection placed by the bounded scheduler (delay bounding); then one more application send and one server-to-client message on the newest session; real Client and Server over the real TCP transport on per-dial virtual pipes; distinct outcome = distinct observation log",
-		Assume:   []string{"state pruning off (Client.channel is read outside its mutex)", "in-process and WebSocket clients are not explored here", "a spinning goroutine is recognised by more than 8000 visible operations being executed while the virtual clock stands still (a whole handshake takes about 1500)"},
+		Rule:     "fault kind {server finish, server fail, abrupt close, connection reset, half-close, undecodable bytes, non-envelope JSON, envelope above twice the read limit} x moment {idle, concurrent with an application send} x {server reachable at once, dials refused for 2s during which an application send with a 300ms deadline times out} as data choices, the injection placed by the bounded scheduler (delay bounding); then one more application send and one server-to-client message on the newest session; real Client and Server over the real TCP transport on per-dial virtual pipes; distinct outcome = distinct observation log",
+		Assume:   []string{"state pruning off (Client.channel is read outside its mutex)", "in-process and WebSocket clients are not explored here; the tls/faults scenario runs the same over real TLS (negotiated per dial), where the wire tap cannot see message ids, so the written-to-a-live-session clause is not evaluated there; it runs the default schedule only (crypto/tls holds native mutexes across its I/O, so preempting inside it could block the whole simulation natively) with writes to a vanished peer failing as a reset", "a spinning goroutine is recognised by more than 8000 visible operations being executed while the virtual clock stands still (a whole handshake takes about 1500)"},
 		Scenarios: []harness.Scenario{
 			mk("all-faults", faults, 1, 2),
+			{Name: "tls/faults", Opt: opt, Quick: 0, Thorough: 0, Prune: false, Body: body([]string{"server-finish", "server-fail", "abrupt-close", "reset", "garbage"}, true), Final: final},
 		},
 	})
 }
